@@ -238,14 +238,52 @@ func (a *Analysis) orderKey(n Node) []int {
 	var key []int
 	for i := len(chain) - 1; i >= 0; i-- {
 		c := chain[i]
-		key = append(key, c.cont.Block().Index, instrIndex(c.cont))
+		key = append(key, rpoIndex(c.cont.Block()), instrIndex(c.cont))
 	}
-	key = append(key, n.b.Index, n.idx)
+	key = append(key, rpoIndex(n.b), n.idx)
 	if a.okeys == nil {
 		a.okeys = map[Node][]int{}
 	}
 	a.okeys[n] = key
 	return key
+}
+
+// rpoIndex: reverse-postorder number of a block in its function (a
+// topological order of the CFG without its back edges).
+var rpoCache = map[*ssa.Function]map[*ssa.BasicBlock]int{}
+
+func rpoIndex(b *ssa.BasicBlock) int {
+	fn := b.Parent()
+	m, ok := rpoCache[fn]
+	if !ok {
+		m = map[*ssa.BasicBlock]int{}
+		seen := map[*ssa.BasicBlock]bool{}
+		var post []*ssa.BasicBlock
+		var dfs func(x *ssa.BasicBlock)
+		dfs = func(x *ssa.BasicBlock) {
+			seen[x] = true
+			// visit successors in reverse so that the first successor comes first in RPO
+			for i := len(x.Succs) - 1; i >= 0; i-- {
+				if !seen[x.Succs[i]] {
+					dfs(x.Succs[i])
+				}
+			}
+			post = append(post, x)
+		}
+		if len(fn.Blocks) > 0 {
+			dfs(fn.Blocks[0])
+		}
+		for i, x := range post {
+			m[x] = len(post) - 1 - i
+		}
+		for _, x := range fn.Blocks {
+			if _, ok := m[x]; !ok {
+				m[x] = len(post) + x.Index
+			}
+		}
+		rpoCache[fn] = m
+	}
+	return m[b]
 }
 
 func (a *Analysis) before(x, y Node) bool {
@@ -288,6 +326,18 @@ func (a *Analysis) push(n Node, from any, st *CNF) {
 		ns.order = append(ns.order, from)
 		a.selLoc = append(a.selLoc, n)
 		ns.sel[from] = a.lt.id(Lit{Kind: KS, C: int64(len(a.selLoc) - 1)})
+	}
+	if old, seen := ns.preds[from]; seen && old != nil && n.idx == 0 && isLoopHeader(n.b) && !old.equal(st) {
+		// a new state enters the loop from outside: the states that came around the
+		// back edges were computed from the previous entry state and must not be
+		// mixed with the new one (they would freeze facts at a weaker fixpoint)
+		if fb, isBlock := from.(*ssa.BasicBlock); !isBlock || !n.b.Dominates(fb) {
+			for k := range ns.preds {
+				if kb, isBlock := k.(*ssa.BasicBlock); isBlock && n.b.Dominates(kb) && k != from {
+					ns.preds[k] = nil
+				}
+			}
+		}
 	}
 	ns.preds[from] = st
 	states := make([]*CNF, len(ns.order))
